@@ -904,6 +904,115 @@ impl Kind for Tagged {
     }
 }
 
+/// The tagged kind again with wide payloads: a 72-byte key and an 80-byte value (a pair of 152
+/// bytes, a `Set` element of 72), plain `Copy` data, equal keys distinguishable by their tag.
+/// Code that treats pairs differently above some byte size (move as a whole up to a cache line,
+/// update in place beyond) is visible to the identity oracles here.
+#[derive(Clone, Copy)]
+pub struct FK {
+    pub raw: u8,
+    pub tag: u32,
+    pub pad: [u64; 8],
+}
+impl PartialEq for FK {
+    fn eq(&self, o: &FK) -> bool {
+        crate::tl::tick(crate::tl::Cb::KeyEq);
+        self.raw == o.raw
+    }
+}
+impl Eq for FK {}
+impl Borrow<u8> for FK {
+    fn borrow(&self) -> &u8 {
+        &self.raw
+    }
+}
+impl fmt::Debug for FK {
+    fn fmt(&self, f: &mut fmt::Formatter<'_>) -> fmt::Result {
+        write!(f, "G{}", self.raw)
+    }
+}
+impl fmt::Display for FK {
+    fn fmt(&self, f: &mut fmt::Formatter<'_>) -> fmt::Result {
+        write!(f, "G{}", self.raw)
+    }
+}
+#[derive(Clone, Copy)]
+pub struct FV {
+    pub val: u32,
+    pub tag: u32,
+    pub pad: [u64; 9],
+}
+impl Default for FV {
+    fn default() -> FV {
+        FV { val: 0, tag: 0, pad: [0x5A5A_5A5A_5A5A_5A5A; 9] }
+    }
+}
+impl PartialEq for FV {
+    fn eq(&self, o: &FV) -> bool {
+        self.val == o.val
+    }
+}
+impl fmt::Debug for FV {
+    fn fmt(&self, f: &mut fmt::Formatter<'_>) -> fmt::Result {
+        write!(f, "H{}", self.val)
+    }
+}
+impl fmt::Display for FV {
+    fn fmt(&self, f: &mut fmt::Formatter<'_>) -> fmt::Result {
+        write!(f, "H{}", self.val)
+    }
+}
+pub struct FatTag;
+impl Kind for FatTag {
+    type K = FK;
+    type Q = u8;
+    type QO = u8;
+    type V = FV;
+    const NAME: &'static str = "fattag";
+    const TRACKED: bool = false;
+    const NOALLOC: bool = true;
+    const IDENT: bool = true;
+    fn key(raw: u8) -> FK {
+        FK { raw, tag: next_tag(), pad: [raw as u64 * 0x0101_0101_0101_0101; 8] }
+    }
+    fn qo(raw: u8) -> u8 {
+        raw
+    }
+    fn val(x: u32) -> FV {
+        FV { val: x, tag: next_tag(), pad: [x as u64; 9] }
+    }
+    fn kraw(k: &FK) -> u8 {
+        k.raw
+    }
+    fn kid(k: &FK) -> u32 {
+        k.tag
+    }
+    fn klive(k: &FK) -> bool {
+        k.pad == [k.raw as u64 * 0x0101_0101_0101_0101; 8]
+    }
+    fn vval(v: &FV) -> u32 {
+        v.val
+    }
+    fn vid(v: &FV) -> u32 {
+        v.tag
+    }
+    fn vset(v: &mut FV, x: u32) {
+        v.val = x
+    }
+    fn kdbg(raw: u8) -> String {
+        format!("G{raw}")
+    }
+    fn vdbg(x: u32) -> String {
+        format!("H{x}")
+    }
+    fn kdisp(raw: u8) -> String {
+        format!("G{raw}")
+    }
+    fn vdisp(x: u32) -> String {
+        format!("H{x}")
+    }
+}
+
 /// Heap-owning keys with an *unsized* borrowed form whose equality is not byte equality:
 /// `PathBuf` / `Path` compare by components, so "d7/f", "d7//f" and "d7/f/" are equal queries of
 /// different lengths.
